@@ -30,10 +30,10 @@ func (o goSliceObject) getValue(index int64) (reflect.Value, bool) {
 	return reflect.Value{}, false
 }
 
-func (o *goSliceObject) setLength(value Value) {
+func (o *goSliceObject) setLength(rt *runtime, value Value) {
 	want, err := value.ToInteger()
 	if err != nil {
-		panic(err)
+		panic(rt.panicConversionError(err))
 	}
 
 	wantInt := int(want)
@@ -51,10 +51,10 @@ func (o *goSliceObject) setLength(value Value) {
 	}
 }
 
-func (o *goSliceObject) setValue(index int64, value Value) bool {
+func (o *goSliceObject) setValue(rt *runtime, index int64, value Value) bool {
 	reflectValue, err := value.toReflectValue(o.value.Type().Elem())
 	if err != nil {
-		panic(err)
+		panic(rt.panicConversionError(err))
 	}
 
 	indexValue, exists := o.getValue(index)
@@ -120,10 +120,10 @@ func goSliceEnumerate(obj *object, all bool, each func(string) bool) {
 
 func goSliceDefineOwnProperty(obj *object, name string, descriptor property, throw bool) bool {
 	if name == propertyLength {
-		obj.value.(*goSliceObject).setLength(descriptor.value.(Value))
+		obj.value.(*goSliceObject).setLength(obj.runtime, descriptor.value.(Value))
 		return true
 	} else if index := stringToArrayIndex(name); index >= 0 {
-		if obj.value.(*goSliceObject).setValue(index, descriptor.value.(Value)) {
+		if obj.value.(*goSliceObject).setValue(obj.runtime, index, descriptor.value.(Value)) {
 			return true
 		}
 		return obj.runtime.typeErrorResult(throw)
